@@ -43,8 +43,10 @@ func c18paths(c *Ctx) {
 		// long directory names (a CI workspace, a content-addressed store): 63, 64, 65, 128 and 300 bytes
 		// a mapping whose replacement is itself a path under ANOTHER registered directory (an alias, a bind mount)
 		"/w",
+		// a relative prefix (module path of a -trimpath build) whose short form is an absolute path
+		"github.com/acme-internal/billing",
 		"/ci/" + strings.Repeat("w", 59), "/ci/" + strings.Repeat("x", 60), "/ci/" + strings.Repeat("y", 61), "/store/" + strings.Repeat("0123456789abcdef", 7) + "/objects", "/deep/" + strings.Repeat("segment-of-a-long-path/", 12) + "end"}
-	replPool := []string{"~d", "~p", "$SRV", "~w", "~alice", "CI:", "~deep", "~gosrc", "~work", "~tmp", "~u", "~bin", "~ws", "~stage", "~brace", "", "", "GH:acme", "~pc", "W:", "/srv/data/projects/work", "~L63", "~L64", "~L65", "~store", "~long"}
+	replPool := []string{"~d", "~p", "$SRV", "~w", "~alice", "CI:", "~deep", "~gosrc", "~work", "~tmp", "~u", "~bin", "~ws", "~stage", "~brace", "", "", "GH:acme", "~pc", "W:", "/srv/data/projects/work", "/billing", "~L63", "~L64", "~L65", "~store", "~long"}
 	if len(prefixPool) != len(replPool) {
 		panic("harness: prefixPool and replPool differ in length")
 	}
@@ -131,6 +133,18 @@ func c18paths(c *Ctx) {
 				delete(table, pair[0])
 				hist = append(hist, "add "+pair[0], "add "+pair[1], "remove "+pair[0])
 				c.R.Add("histories_that_remove_the_parent_of_a_registered_directory", 1)
+			case 8:
+				// two registered directories whose names differ in letter case only (or by a Unicode case-fold pair): two
+				// directories; removing one leaves the other registered
+				pair := gen.Pick(r, [][2]string{{"/srv/ci/build", "/srv/ci/Build"}, {"/opt/Work", "/opt/work"}, {"/data/\u212aelvin", "/data/kelvin"}, {"/MNT/share", "/mnt/share"}})
+				slog.AddKnownPathMapping(pair[0], "~first")
+				slog.AddKnownPathMapping(pair[1], "~second")
+				added[pair[0]], added[pair[1]] = true, true
+				slog.RemoveKnownPathMapping(pair[0])
+				delete(table, pair[0])
+				table[pair[1]] = "~second"
+				hist = append(hist, "add "+pair[0], "add "+pair[1], "remove "+pair[0])
+				c.R.Add("histories_with_two_directories_that_differ_in_letter_case", 1)
 			case 0, 1, 2:
 				k := r.Intn(len(prefixPool))
 				slog.AddKnownPathMapping(prefixPool[k], replPool[k])
